@@ -148,4 +148,68 @@ def outSchema : Plan → Schema
   | .delimGet _ s _ => s
   | .vsearch _ _ _ _ _ s _ => s
 
+/-! ### well-formedness (the C31 checker)
+
+  `scopes` are the schemas a column reference may resolve in, innermost first: the batch the operator receives,
+  then — inside subquery plans — the batches of the enclosing queries (the subquery executor falls back to the outer
+  row when the inner lookup reports ColumnNotFound, src/physical/operators/subquery.rs). -/
+
+mutual
+def wfE (scopes : List Schema) : PExpr → Bool
+  | .col rel name => scopes.any (fun s => (resolve s rel name).isSome)
+  | .lit _ _ => true
+  | .op _ _ args => wfEs scopes args
+  | .alias e _ => wfE scopes e
+  | .sub _ _ args p => wfEs scopes args && wfP scopes p
+  | .star _ => true
+def wfEs (scopes : List Schema) : List PExpr → Bool
+  | [] => true
+  | e :: es => wfE scopes e && wfEs scopes es
+/-- every column reference resolves in the schema of the batches the operator receives (by the engine's
+    resolution order), and the arities the physical operators rely on match -/
+def wfP (outer : List Schema) : Plan → Bool
+  | .scan _ s proj filter =>
+    (match proj with | some idx => idx.all (fun i => decide (i < s.length)) | none => true)
+      && wfEs ((match proj with | some idx => projectSchema s idx | none => s) :: outer) filter
+  | .filter pred i => wfP outer i && wfE (outSchema i :: outer) pred
+  | .project exprs s i => wfP outer i && (wfEs (outSchema i :: outer) exprs && exprs.length == s.length)
+  | .join jt onL onR filter s l r =>
+    wfP outer l && (wfP outer r && (wfEs (outSchema l :: outer) onL && (wfEs (outSchema r :: outer) onR
+      && (onL.length == onR.length && (wfEs ((outSchema l ++ outSchema r) :: outer) filter
+      && (match jt with | .mark => decide (1 ≤ s.length) | _ => true))))))
+  | .agg group aggs s i =>
+    wfP outer i && (wfEs (outSchema i :: outer) group && (wfEs (outSchema i :: outer) aggs && group.length + aggs.length == s.length))
+  | .window names wexprs s i =>
+    wfP outer i && (wfEs (outSchema i :: outer) wexprs && ((outSchema i).length + wexprs.length == s.length && names.length == wexprs.length))
+  | .sort keys _ i => wfP outer i && wfEs (outSchema i :: outer) keys
+  | .limit _ _ i => wfP outer i
+  | .distinct i => wfP outer i
+  | .union _ s inputs => wfPs outer s.length inputs
+  | .alias _ _ s i => wfP outer i && (outSchema i).length == s.length
+  | .empty _ _ => true
+  | .values rows width s => wfEs outer rows && (width == s.length && (decide (0 < width) && rows.length % width == 0 || rows.isEmpty))
+  | .delimJoin jt delim onL onR s l r =>
+    wfP outer l && (wfP outer r && (wfEs (outSchema l :: outer) delim && (wfEs (outSchema l :: outer) onL
+      && (wfEs (outSchema r :: outer) onR && (onL.length == onR.length
+      && (match jt with
+          | .semi | .anti => (outSchema l).length == s.length
+          | .mark => (outSchema l).length + 1 == s.length
+          | _ => (outSchema l).length + (outSchema r).length == s.length))))))
+  | .delimGet _ _ _ => true
+  | .vsearch _ _ sortKey _ _ s i => wfP outer i && (wfE (outSchema i :: outer) sortKey && (outSchema i).length == s.length)
+/-- all inputs well-formed and of the union's arity -/
+def wfPs (outer : List Schema) (arity : Nat) : List Plan → Bool
+  | [] => true
+  | p :: ps => wfP outer p && ((outSchema p).length == arity && wfPs outer arity ps)
+end
+
+/-- top-level well-formedness of an exported plan -/
+def wf (p : Plan) : Bool := wfP [] p
+
+/-- names and types of a schema -/
+def nameTy (s : Schema) : List (String × String) := s.map (fun f => (f.name, f.ty))
+
+/-- the rule kept the reported output schema (`LogicalPlan::schema()`): same column names and types, in order -/
+def preserved (before after : Plan) : Bool := nameTy (schemaOf after) == nameTy (schemaOf before)
+
 end IQE.Engine.PlanWf
